@@ -107,3 +107,14 @@ Definition file_trig_row (k : key) : key :=
   end.
 Definition file_payload (x : Z * key) : Z * key :=
   if fst x =? XS_TRIGGERS then (fst x, file_trig_row (snd x)) else x.
+
+(* ---- a variant of read(), for the refutation in Props/C19.v: the trigger library is NOT re-created before
+   the sections are loaded (rows of the file are inserted over the old ids, the old content -> id keymap
+   entries stay) ------------------------------------------------------------------------------------------- *)
+Definition read_ext_keep_trig (c0 : core) (f : xfile) : option core :=
+  let c1 := c0 <| lset_l := lib_empty |> <| linc_l := lib_empty |> <| ext_num := [] |> <| ext_str := [] |> in
+  let c2 := match x_ext f with
+            | Some rows => c1 <| ext_l := lib_of_rows lib_empty (map (read_row sec_ext) rows) |>
+            | None => c1
+            end in
+  fold_left read_sec (x_secs f) (Some c2).
